@@ -68,6 +68,8 @@ func init() {
 				Witnesses: []string{"missing-terminator", "duplicate-key", "user-given", "with-version"}},
 			{Pkg: "wire", Entry: "VerifH12b", What: "CancelRequest: no reply, no callback, closed",
 				Quick: map[string]int{}, Witnesses: []string{"cancel-first", "cancel-after-ssl"}},
+			{Pkg: "wire", Entry: "VerifH12c", What: "the transport starts failing at the k-th write of the startup reply: no further write, no callback, serve returns",
+				Quick: map[string]int{"WRITES": 7}, Witnesses: []string{"first-write-fails", "auth-ok-write-fails"}},
 			{Pkg: "wire", Entry: "VerifH11", What: "CancelRequest after a completed TLS upgrade: no reply inside TLS, no callback, closed",
 				Quick: map[string]int{"STUFF": 2}, Witnesses: []string{"cancel-after-upgrade"}},
 		},
@@ -81,7 +83,9 @@ func init() {
 		Runs: []HarnessRun{
 			{Pkg: "wire", Entry: "VerifH19", What: "middleware order, context propagation, cancellation, terminate",
 				Quick: map[string]int{"MW": 2, "K": 2}, Thorough: map[string]int{"MW": 3, "K": 3},
-				Witnesses: []string{"middleware-failed", "callback-context-checked", "terminate-with-hook", "terminate-without-hook", "two-middlewares"}},
+				Witnesses: []string{"middleware-failed", "callback-context-checked", "terminate-with-hook", "terminate-without-hook", "two-middlewares", "custom-caches-executed"}},
+			{Pkg: "wire", Entry: "VerifH19e", What: "Parse/Bind/Execute/Sync with default or user-supplied caches: statement context carries session values and is cancelled after the command",
+				Quick: map[string]int{}, Witnesses: []string{"custom-caches", "default-caches"}},
 			{Pkg: "wire", Entry: "VerifH19x", What: "one Terminate: hook exactly once, connection closed, no reply",
 				Quick: map[string]int{}, Witnesses: []string{"hook", "no-hook"}},
 		},
